@@ -54,6 +54,7 @@ SHARDS = {'quick': 1, 'thorough': 16}
 SHARD_TIMEOUT = {'quick': 300, 'thorough': 1500}
 
 F_DEL = 'C22-TRANSLATOR-CACHE-DEL-KEYERROR'
+F_HYB = 'C22-HYBRID-METHOD-TRANSLATED-WITH-ANOTHER-METHODS-AST'
 F_LAZY = 'C22-XTHREAD-LAZY-ATTR-LOAD-NO-ERROR'
 F_ISEMPTY = 'C22-XTHREAD-SET-IS-EMPTY-NO-ERROR'
 
@@ -990,6 +991,11 @@ def judge(h, E, shape, params, progs, base, s, desc):
             if g[1] == 'exc' and len(g) > 3 and g[3].get('del_keyerror'):
                 ctx.count('outcome.known_del_keyerror'); differs += 1
                 ctx.finding(F_DEL, wit)
+            elif g[1] == 'exc' and g[2] == 'TranslationError' and ' is not found in ' in (wit.get('tb') or '') and '(inside ' in (wit.get('tb') or ''):
+                # a hybrid method / property translated, under another thread's concurrent translation, with a body that
+                # is not its own (the missing name is a parameter of ANOTHER hybrid method of the entity)
+                ctx.count('outcome.known_hybrid_translation_race'); differs += 1
+                ctx.finding(F_HYB, wit)
             else:
                 ctx.count('outcome.differs'); differs += 1
                 ctx.violation(wit, 'result-differs-from-solo' if g[1] == 'ok' else 'spurious-or-different-error')
